@@ -46,6 +46,8 @@ Visible(e) ==
     \/ e.e = "dir" /\ (\A k \in Keys : Cls(fin[k]) = e.files[k]) /\ UNCHANGED vars
     \/ e.e = "end" /\ e.ok /\ e.same /\ FinishRun
     \/ e.e = "newrun" /\ NextRun
+    \/ e.e = "mutate" /\ Mutate
+    \/ e.e = "clear" /\ ClearCache
     \/ e.e = "fin" /\ EndAll
 
 TInit == Init /\ tid \in 1..Len(Traces) /\ l = 1
